@@ -252,13 +252,19 @@ def numEnd (p : PState) : Res := do
   let p1 ← scalar p (.num (buf p))
   some (.again, p1)
 
+/-- `XDL_MAX_DEPTH`: deeper nesting is rejected (bounds the recursion of `~Var`) -/
+def maxDepth : Nat := 1000
+
 /-- the body shared by WAIT_VALUE and (after its comma test) WAIT_COMMA_OR_VALUE -/
 def waitValue (p : PState) (ctx : Ctx) (c : UInt8) : Res :=
   if isDigit c then next { push p c with state := .INT }
   else if c = 45 then next { push p c with state := .MINUS }
   else if c = 34 then next { p with state := .STRING }
-  else if c = 91 then next { p with lists := .arr [] :: p.lists, ctx := .ARRAY :: p.ctx }
+  else if c = 91 then
+    if p.lists.length > maxDepth then errRet p
+    else next { p with lists := .arr [] :: p.lists, ctx := .ARRAY :: p.ctx }
   else if c = 123 then
+    if p.lists.length > maxDepth then errRet p else
     let p1 := beginObject p (buf p)
     next { p1 with state := .WAIT_PROPERTY, ctx := .OBJECT :: p.ctx, buffer := [] }
   else if c = 125 ∧ ctx = .OBJECT then do
@@ -363,6 +369,7 @@ def dispatch (p : PState) (ctx : Ctx) (c : UInt8) : Res :=
     else next p
   | .WAIT_OBJ =>
     if c = 123 then
+      if p.lists.length > maxDepth then errRet p else
       let p1 := beginObject p (buf p)
       next { p1 with state := .WAIT_PROPERTY, ctx := .OBJECT :: p.ctx, buffer := [] }
     else if !isSpace c then errRet p
